@@ -41,6 +41,19 @@ def _hs():
         H("c10::c10_a_message_capture", tier=t, desc="message with `{:?}` argument and inline capture `{m}`", sym=S_TXT),
         H("c10::c10_a_message_braces", tier=t, desc="`{ a = v, %m }, \"{}z\", m` braces form", sym=S_TXT),
     ]
+    # ---- systematic table over the valueset!/fieldset! arms (one invocation, two fields each)
+    quick_arms = {"literal_disp_last", "ident_dbg_last", "const_dbg_first", "dotted_disp_first", "short_disp_last", "literal_none_last"}
+    sig_txt = {"none": "typed value (record_u64)", "disp": "`%`: record_debug with the Display text \"D\" (marker: Display \"D\", Debug \"G\")",
+               "dbg": "`?`: record_debug with the Debug text \"G\""}
+    for form in ("ident", "dotted", "literal", "const", "short"):
+        for sig in ("none", "disp", "dbg"):
+            for pos in ("first", "last"):
+                k = "%s_%s_%s" % (form, sig, pos)
+                hs.append(H("c10::c10_arm_" + k, tier=q if k in quick_arms else t,
+                            desc="valueset!/fieldset! arm: name form %s, %s, position %s (%s): name, index, method, value/text" % (
+                                {"short": "shorthand identifier"}.get(form, form), sig_txt[sig], pos,
+                                "followed by `, rest`" if pos == "first" else "final field, no trailing comma"),
+                            sym="the other field's value (i8), the typed value (u8) for sigil none, cached interest"))
     # ---- event! prefix arms
     for n, tier in (("name_target_parent", q), ("name_target", t), ("target_parent", t), ("name_parent", t), ("name", t), ("target", t), ("parent", t)):
         hs.append(H("c10::c10_a_ev_" + n, tier=tier, desc="event! arm with prefixes %s: metadata name/target/level, parent kind+id, fields typed in order" % n.replace("_", ":, ") , sym=S_PAR))
@@ -82,6 +95,10 @@ def _hs():
         H("c10::c10_b_span", tier=q, desc="span!: three field expressions evaluated once iff enabled", sym=S_LAZY),
         H("c10::c10_b_span_target_parent", tier=t, desc="span!(target:, parent:, ..) arm", sym=S_LAZY),
         H("c10::c10_b_info_span", tier=t, desc="info_span! shorthand", sym=S_LAZY),
+        H("c10::c10_b_span_parent", tier=q, desc="span!(parent: p, ..) with symbolic explicit parent None / Some(id): the Span::child_of arm keeps the full guard (level, interest, is_enabled)", sym=S_LAZY + ", parent"),
+        H("c10::c10_b_span_parent_ref", tier=t, desc="span!(parent: &id, ..)", sym=S_LAZY + ", parent id"),
+        H("c10::c10_b_info_span_parent", tier=t, desc="info_span!(parent: p, ..) shorthand, symbolic parent", sym=S_LAZY + ", parent"),
+        H("c10::c10_b_debug_span_target_parent", tier=t, desc="debug_span!(target:, parent: &id, ..) shorthand", sym=S_LAZY + ", parent id"),
         H("c10::c10_b_fresh_state", tier=q, desc="fresh process state (MAX_LEVEL = OFF, nothing registered): event!, error!, span!, error_span! evaluate nothing", sym="field values"),
         H("c10::c10_cap_above", tier=t, group=GC, desc="tracing built with max_level_info: DEBUG/TRACE events and spans evaluate nothing under the most permissive run-time state", sym="global max in 6, field values"),
         H("c10::c10_cap_info_event", tier=t, group=GC, desc="capped build, info!: governed by the run-time stages only", sym=S_LAZY),
@@ -115,7 +132,7 @@ SPEC = {
         "MacroCallsite::{interest, register, is_enabled}, callsite::register, dispatch::get_default (to enable the callsite as in C01-K1)",
     ],
     "sym": "all field values at full width, string/byte contents and lengths (<= 4), Display/Debug output bytes, explicit parents, cached interest, global max, collector verdict",
-    "bounds": "<= 5 fields per macro invocation, one invocation per callsite form (two in a few fmt-stubbed harnesses); strings and byte slices <= 4 bytes; formatted text <= 4 bytes; "
+    "bounds": "valueset!/fieldset! arms: every (name form ident/dotted/literal/const/shorthand) x (sigil none/%/?) x (position followed-by-rest / last) arm has its own harness; <= 5 fields per macro invocation, one invocation per callsite form (two in a few fmt-stubbed harnesses); strings and byte slices <= 4 bytes; formatted text <= 4 bytes; "
               "level shorthands: 4 arm families per level out of 54 textual arms each (k = v first, all three prefixes + braces + message, fields + format string, one rotating family); "
               "unwind 7 (= 5 fields + 2, rejected at 5 by the unwinding assertion in ValueSet::record)",
     "outside": "error-chain values (`dyn Error` and record_error sources: heap, recursive); Option<T> (this tree has no `impl Value for Option<T>`); float Display/Debug text (integer/float formatting is never run: "
